@@ -142,6 +142,21 @@ func C11(c *core.Ctx) {
 					nLeaf++
 					return
 				}
+				// the tail of the number read by a helper of the package: its returns
+				if cl, ok := x.Tuple.(*ssa.Call); ok {
+					if g := cl.Call.StaticCallee(); g != nil && g.Blocks != nil && g.Pkg == rt.Pkg && len(seen) < 64 {
+						n0 := 0
+						core.Instrs(g, func(in ssa.Instruction) {
+							if r, okR := in.(*ssa.Return); okR && x.Index < len(r.Results) && in.Block() != g.Recover {
+								n0++
+								leaves(r.Results[x.Index], seen)
+							}
+						})
+						if n0 > 0 {
+							return
+						}
+					}
+				}
 			case *ssa.UnOp:
 				if _, isG := x.X.(*ssa.Global); isG && x.Op == token.MUL {
 					nLeaf++
